@@ -38,7 +38,7 @@ var IterStops = []string{"StopIteration", "StopIteration()", "StopIteration(77)"
 var IterConsumers = []string{
 	"for", "listcomp", "setcomp", "dictcomp", "genexp", "unpack", "starred", "starcall",
 	"list", "tuple", "set", "sum", "min", "max", "sorted", "zipl", "zipr", "map", "filter", "enumerate", "any", "all", "in", "notin", "join",
-	"forbreak", "nestedfor", "listiter", "whilenext",
+	"forbreak", "nestedfor", "listiter", "whilenext", "nextdefault", "sortedkey", "minkey", "maxkey", "sortedrev", "sumstart", "unpacknested", "forunpack", "listofgen", "anygen", "chainfor",
 }
 
 var iterWrappers = []string{"deleg", "map", "filter", "genexp", "zipl", "enum", "deleg"}
@@ -125,7 +125,7 @@ func GenIter(r *simrt.Rand, excl IterExclude) *IterProg {
 				// sets of tuples and ordering of tuples are not provided by
 				// this tree (outside C05): keep tuple streams away from them
 				switch c {
-				case "set", "setcomp", "sorted", "min", "max", "sum", "join", "filter", "map":
+				case "set", "setcomp", "sorted", "min", "max", "sum", "join", "filter", "map", "sortedkey", "sortedrev", "minkey", "maxkey", "sumstart", "forunpack", "listofgen", "anygen":
 					c = "list"
 				}
 			}
@@ -414,6 +414,28 @@ func consumerBody(c, id, g string, v, tag int) string {
 		return one(fmt.Sprintf("%d not in %s", tag*100+v, g))
 	case "join":
 		return one(fmt.Sprintf("\",\".join(map(str, %s))", g))
+	case "nextdefault":
+		return fmt.Sprintf("log(%s, \"nextdefault\", next(%s, \"dflt\"), next(%s, None))", id, g, g)
+	case "sortedkey":
+		return one(fmt.Sprintf("sorted(%s, key=lambda _v: -_v)", g))
+	case "sortedrev":
+		return one(fmt.Sprintf("sorted(%s, reverse=True)", g))
+	case "minkey":
+		return one(fmt.Sprintf("min(%s, key=lambda _v: -_v)", g))
+	case "maxkey":
+		return one(fmt.Sprintf("max(%s, key=lambda _v: -_v)", g))
+	case "sumstart":
+		return one(fmt.Sprintf("sum(%s, 1000)", g))
+	case "unpacknested":
+		return fmt.Sprintf("(_a, _b), _c = zip(%s, %s), 5\nlog(%s, \"unpacknested\", _a, _b, _c)", g, g, id)
+	case "forunpack":
+		return acc(fmt.Sprintf("for _i, _v in enumerate(%s):\n    _acc.append(_i + _v)", g))
+	case "listofgen":
+		return one(fmt.Sprintf("[_w for _w in (_v + 1 for _v in %s) if _w %% 2]", g))
+	case "anygen":
+		return one(fmt.Sprintf("(any(_v %% 2 for _v in %s), all(_v > 0 for _v in %s))", g, g))
+	case "chainfor":
+		return acc(fmt.Sprintf("for _v in %s:\n    _acc.append(_v)\nfor _v in %s:\n    _acc.append(-_v)", g, g))
 	case "listiter":
 		return one(fmt.Sprintf("list(iter(%s))", g))
 	case "dictfromzip":
